@@ -9,18 +9,18 @@ VF_EF(uint64_t, 1, float);
 VF_EF_ENUM(uint64_t, 1, float);
 VF_EF_ENUM(uint32_t, 2, float);
 VF_EF_ENUM(uint16_t, 1, float);
-VF_EF(uint16_t, 8, float);
+VF_EF(uint16_t, 6, float);
 VF_EF(uint64_t, 32, double);
 #endif
 #if VF_GROUP == 2
 VF_EF_SWEEP(uint64_t, 2, float);
 VF_EF_SWEEP(uint32_t, 1, float);
-VF_EF(uint32_t, 128, float);
+VF_EF(uint32_t, 100, float);
 VF_EF(uint16_t, 1, double);
 #endif
 #if VF_GROUP == 3
 VF_EF_BIG(uint64_t, 1, float);
-VF_EF(uint64_t, 8, float);
+VF_EF(uint64_t, 12, float);
 VF_EF(uint32_t, 1, float);
 #endif
 #if VF_GROUP == 4
@@ -28,7 +28,7 @@ VF_EF(uint32_t, 8, double);
 VF_EF(uint64_t, 2, float);
 #endif
 #if VF_GROUP == 5
-VF_EF(uint16_t, 32, float);
+VF_EF(uint16_t, 24, float);
 VF_EF(uint64_t, 128, float);
 #endif
 #if VF_GROUP == 6
